@@ -75,7 +75,7 @@ def configs(draw, dmin=0, dmax=4, custom=0.0, starts=(None, 0, 1, 2), named=Fals
     sig = draw(signatures(dmin, dmax, dweights))
     start = draw(st.sampled_from(list(starts)))
     cfg = {"sig": sig, "start": start, "basis": None}
-    if custom and len(sig) >= 1 and draw(st.floats(0, 1)) < custom:
+    if custom and len(sig) >= 1 and draw(st.integers(0, 99)) < custom * 100:
         s = start if start is not None else (0 if sig.count(0) == 1 else 1)
         cfg["basis"] = draw(custom_basis(len(sig), s))
         cfg["start"] = None   # derived from the basis by the constructor
@@ -83,7 +83,7 @@ def configs(draw, dmin=0, dmax=4, custom=0.0, starts=(None, 0, 1, 2), named=Fals
     return cfg
 
 
-KEY_CLASSES = ["empty", "single", "sparse", "sparse", "sparse", "gradeblock", "fullcanon", "fullbin", "perm", "perm"]
+KEY_CLASSES = (["empty"] + ["single"] * 2 + ["sparse"] * 5 + ["gradeblock"] * 2 + ["fullcanon", "fullbin"] + ["perm"] * 4)
 
 
 def canon_sorted(keys):
